@@ -294,7 +294,7 @@ for _pid, _asp, _extra in [
     ("C06", {"outcome"}, {}),
 ]:
     PROPS[_pid] = {
-        "lean_modules": ["AxVerif.Props." + _pid],
+        "lean_modules": ["AxVerif.Props." + _pid] + (["AxVerif.Props.C01Alu"] if _pid == "C01" else ["AxVerif.Props.C03Cmp"] if _pid == "C03" else []),
         "gen": _pid,
         "spec_determined": True,
         "native": dict({"aspects": _asp}, **_extra),
